@@ -215,6 +215,46 @@ func (ReadFileEngine) Gen(prop, tier string, seed uint64, yield func(c any) bool
 		return
 	}
 	rng := core.NewRng(core.SubSeed(seed, "readfile", tier))
+	// grid part (every run of either tier): cells that the seeded part only meets by luck
+	// (a) tiny files x chips that answer with 1..4 bytes: the header read itself is split
+	for total := 0; total <= 6; total++ {
+		for tagLen := 1; tagLen <= 2; tagLen++ {
+			for lenForm := 0; lenForm <= 2; lenForm++ {
+				for _, b := range []struct {
+					maxResp    int
+					mode       string
+					shortFixed int
+				}{{1, "", 0}, {2, "", 0}, {3, "", 0}, {4, "", 0}, {0, "fixed", 1}, {0, "fixed", 2}, {0, "fixed", 3}, {0, "one", 0}, {0, "alt", 0}, {0, "first", 1}, {0, "first", 2}} {
+					for _, le := range []int{1, 2, 3, 4, 5, 256} {
+						for _, suite := range []string{"", chip.AES128} {
+							c := RFCase{Seed: rng.U64(), ContentLen: total, TagLen: tagLen, LenForm: lenForm, MaxLe: le, Suite: suite, MaxResp: b.maxResp, ShortMode: b.mode, ShortFixed: b.shortFixed, Siblings: rng.Bool()}
+							if !yield(c) {
+								return
+							}
+						}
+					}
+				}
+			}
+		}
+	}
+	// (b) reads that start exactly on an offset boundary (0x8000: first offset that no longer fits P1/P2; 0x10000: first
+	// that needs three offset octets): read sizes that divide 32764 = 0x8000-4, or a short first block that shifts the
+	// 256-byte grid onto the boundary (4 + 252 + 127*256 = 0x8000, 4 + 252 + 255*256 = 0x10000)
+	for _, n := range []int{32766, 33000, 40000, 65530, 65531, 65533, 65535} {
+		for _, g := range []struct {
+			le         int
+			mode       string
+			shortFixed int
+			maxResp    int
+		}{{8191, "", 0, 0}, {16382, "", 0, 0}, {32764, "", 0, 0}, {256, "first", 252, 0}, {256, "first", 124, 0}, {255, "first", 129, 0}, {256, "first", 251, 0}, {256, "first", 253, 0}, {65536, "first", 252, 256}, {128, "first", 124, 0}} {
+			for _, suite := range []string{"", chip.TDES, chip.AES256} {
+				c := RFCase{Seed: rng.U64(), ContentLen: n, TagLen: 1 + rng.Intn(2), LenForm: 2, MaxLe: g.le, Suite: suite, ShortMode: g.mode, ShortFixed: g.shortFixed, MaxResp: g.maxResp, Siblings: rng.Bool()}
+				if !yield(c) {
+					return
+				}
+			}
+		}
+	}
 	for i := 0; i < n; i++ {
 		if !yield(genRF(rng, i)) {
 			return
